@@ -101,6 +101,85 @@ def node_level(ck, tier):
                 ck.disagree('miner scenario crashed: %s' % tb[-400:], {})
 
 
+def function_sweep(ck):
+    """calculate_new_target and select_block_height over the WHOLE domain the statement names (every 256-bit previous
+    target, every elapsed time; every sample hash and height), on the shipped constants: implementation against the
+    statement's formula and against the extracted model.  This is the tie of the two functions when the translator
+    has to fall back to its reference text, and the search behind a broken bridge lemma."""
+    import model
+    from skepticoin import consensus as C
+    from skepticoin import pow as P
+    rng = ck.rng
+    span = common.param('DESIRED_TARGET_READJUSTMENT_TIMESPAN')
+    period = common.param('BLOCKS_BETWEEN_TARGET_READJUSTMENT')
+    top = 2 ** 256 - 1
+    targets = {0, 1, top, top - 1, 2 ** 255, 2 ** 255 - 1, 2 ** 255 + 1}
+    for k in range(1, 257):
+        lo, hi = 2 ** (k - 1), 2 ** k - 1
+        targets.update((lo, hi, rng.randint(lo, hi)))
+    targets = sorted(targets)
+    times = [0, 1, 2, 59, 600, span // 4, span // 2, span - 1, span, span + 1, 2 * span - 1, 2 * span, 4 * span, 4 * span + 1,
+             2 ** 31, 2 ** 32 - 1, 2 ** 32, 2 ** 63, 2 ** 64 - 1]
+    psx = [1, [], period, span, 1, 1, 1, 1, 1, 1, 1, 1]
+    pairs = []
+    for t in targets:
+        for dt in rng.sample(times, 3) + [span, rng.randrange(1, 8 * span)]:
+            pairs.append((t, dt))
+    reqs = [('new_target', [], [psx, t.to_bytes(32, 'big'), dt]) for t, dt in pairs]
+    try:
+        mres = model.run_batch(reqs) if (ck.build_result is not None and ck.build_result.ok) else [None] * len(pairs)
+    except Exception as e:  # noqa
+        ck.disagree('model run of calculate_new_target failed: %r' % (e,), {})
+        mres = [None] * len(pairs)
+    for (t, dt), mo in zip(pairs, mres):
+        want = min(t * dt // span, top).to_bytes(32, 'big')
+        try:
+            got = C.calculate_new_target(t.to_bytes(32, 'big'), dt)
+        except Exception as e:  # noqa
+            got = 'raises %s' % type(e).__name__
+        ck.case(('new_target', t, dt), kind='retarget/%s' % ('capped' if t * dt // span > top else
+                                                             'top-bit' if t >= 2 ** 255 else 'plain'),
+                sample={'previous_target': hex(t), 'elapsed': dt, 'new': got.hex() if isinstance(got, bytes) else got}
+                if t >= 2 ** 255 and dt == span else None)
+        rp = {'function': 'calculate_new_target', 'previous_target': t.to_bytes(32, 'big').hex(), 'elapsed': dt,
+              'expected': want.hex()}
+        if got != want:
+            ck.violation('retarget-function', 'calculate_new_target(%s, %d) %s; the rule (previous target times elapsed '
+                         'seconds over %d, integer-exact, capped at 2^256-1) prescribes %s'
+                         % (hex(t), dt, 'returns ' + got.hex() if isinstance(got, bytes) else got, span, want.hex()), rp)
+            break
+        if mo is not None and mo != want:
+            ck.disagree('model calculate_new_target differs from the formula', rp)
+            break
+    # chain sampling: which ancestor a hash selects
+    cases = []
+    for _ in range(300):
+        h = rng.choice([rng.randbytes(32), b'\xff' * 32, b'\x00' * 32, b'\x80' + bytes(31), rng.randbytes(8) + bytes(24)])
+        height = rng.choice([1, 2, 3, 255, 256, 10080, 2 ** 32, 2 ** 63, 2 ** 64 - 1, rng.randrange(1, 2 ** 40)])
+        cases.append((h, height))
+    try:
+        mres = model.run_batch([('select_height', [], [h, n]) for h, n in cases]) if (ck.build_result is not None and ck.build_result.ok) \
+            else [None] * len(cases)
+    except Exception as e:  # noqa
+        ck.disagree('model run of select_block_height failed: %r' % (e,), {})
+        mres = [None] * len(cases)
+    for (h, n), mo in zip(cases, mres):
+        want = int.from_bytes(h[:8], 'big') % n
+        try:
+            got = P.select_block_height(h, n)
+        except Exception as e:  # noqa
+            got = 'raises %s' % type(e).__name__
+        ck.case(('select_height', h, n), kind='sample-height')
+        rp = {'function': 'select_block_height', 'hash': h.hex(), 'height': n, 'expected': want}
+        if got != want:
+            ck.violation('sample-height-function', 'select_block_height(%s, %d) gives %s; the first 8 bytes of the hash modulo '
+                         'the height give %d' % (h.hex(), n, got, want), rp)
+            break
+        if mo is not None and mo != want:
+            ck.disagree('model select_block_height differs from the formula', rp)
+            break
+
+
 def run(tier, seed):
     ck = common.Check('C05', tier, seed)
     ck.rule = ('random block trees (7-20 blocks, forks, retarget period 3-6, 0-3 signed transactions per block), every '
@@ -121,6 +200,7 @@ def run(tier, seed):
     ck.build(extract=True)
     consensus_check.run_consensus(ck, TAGS, oracle, tier)
     try:
+        function_sweep(ck)
         consensus_check.node_relay_probe(ck, tier, TAGS)
         node_level(ck, tier)
     except Exception:
@@ -132,6 +212,22 @@ def run(tier, seed):
 def replay(path):
     d = json.load(open(path))
     rp = d.get('replay', {})
+    if rp.get('function') == 'calculate_new_target':
+        from skepticoin import consensus as C
+        try:
+            got = C.calculate_new_target(bytes.fromhex(rp['previous_target']), rp['elapsed']).hex()
+        except Exception as e:  # noqa
+            got = 'raises %r' % (e,)
+        print('calculate_new_target ->', got, '; the rule prescribes', rp['expected'])
+        return 1 if got != rp['expected'] else 0
+    if rp.get('function') == 'select_block_height':
+        from skepticoin import pow as P
+        try:
+            got = P.select_block_height(bytes.fromhex(rp['hash']), rp['height'])
+        except Exception as e:  # noqa
+            got = 'raises %r' % (e,)
+        print('select_block_height ->', got, '; expected', rp['expected'])
+        return 1 if got != rp['expected'] else 0
     if 'block' in rp:
         v = consensus_check.replay_case(rp)
         print('mutant', rp.get('label'), '-> implementation verdict', v, '(1 = accepted)')
